@@ -98,6 +98,51 @@ def items(tier: str) -> List[Any]:
         for seq in itertools.product(toks, repeat=n):
             if seq[-1] in ("&&", "||"):
                 out.append(("tree", list(seq)))
+    out += attribution_items(tier)
+    return out
+
+
+def attribution_items(tier: str) -> List[Any]:
+    """'A comparison is attributed to a transaction field only if that field really is its operand':
+    programs whose only condition compares something that is NOT the governed transaction's
+    GroupIndex / GroupSize / Fee / kind / address field but looks like it (another member's field,
+    a different field of the same shape, the field plus or minus a constant), in every operand order,
+    consumed by assert / bz / bnz / return.  Decided semantically: E1 explores every accepting run and
+    every block passed must still admit the run's values (a misattributed comparison narrows a set the
+    program never constrained)."""
+    from mc.gen.atoms import LIT1  # pylint: disable=import-outside-toplevel
+
+    int_reads = [
+        ["gtxn 1 GroupIndex"], ["int 1", "gtxns GroupIndex"], ["gtxn 0 GroupIndex"], ["txn FirstValid"], ["txn Amount"],
+        ["global MinTxnFee"], ["global Round"], ["gtxn 0 Fee"], ["gtxn 1 TypeEnum"], ["gtxn 0 OnCompletion"], ["gtxn 1 ApplicationID"],
+        ["txn GroupIndex", "int 1", "+"], ["global GroupSize", "int 1", "-"], ["txn Fee", "int 1", "+"], ["txn TypeEnum", "int 1", "+"],
+        ["txn OnCompletion", "int 1", "+"], ["int 2", "txn GroupIndex", "-"], ["txn NumAppArgs"], ["txn GroupIndex", "int 1", "+", "gtxns GroupIndex"],
+    ]
+    consts = ["int 0", "int 1", "int 2", "int 6", "int 1000"] if tier != "quick" else ["int 1", "int 2", "int 6"]
+    ops = ("==", "!=", "<", ">=") if tier != "quick" else ("==", "!=", "<")
+    atoms: List[List[str]] = []
+    for r in int_reads:
+        for c in consts:
+            for o in ops:
+                atoms.append(r + [c, o])
+                atoms.append([c] + r + [o])
+    int_reads += [["int 1", "txn GroupIndex", "-", "gtxns Fee"], ["int 1", "int 1", "+", "gtxns Fee"]]
+    addr_reads = [["txn Receiver"], ["txn AssetReceiver"], ["gtxn 0 RekeyTo"], ["gtxn 1 Sender"], ["gtxn 0 CloseRemainderTo"],
+                  ["int 1", "gtxns AssetCloseTo"], ["global CreatorAddress"],
+                  # positions computed from the own index in ways that are neither `GroupIndex + k` nor `GroupIndex - k`
+                  ["int 2", "txn GroupIndex", "-", "gtxns RekeyTo"], ["int 1", "txn GroupIndex", "-", "gtxns Sender"],
+                  ["txn GroupIndex", "int 1", "+", "int 1", "+", "gtxns RekeyTo"], ["int 1", "int 1", "+", "gtxns RekeyTo"]]
+    for r in addr_reads:
+        for c in ("global ZeroAddress", f"addr {LIT1}"):
+            for o in ("==", "!="):
+                atoms.append(r + [c, o])
+                atoms.append([c] + r + [o])
+    out: List[Any] = []
+    for a in atoms:
+        body = "\n".join(a)
+        for tmpl in ("{A}\nassert\nint 1\nreturn\n", "{A}\nbz no\nint 1\nreturn\nno:\nerr\n", "{A}\nbnz yes\nerr\nyes:\nint 1\nreturn\n", "{A}\nreturn\n",
+                     "{A}\n!\nbz yes\nerr\nyes:\nint 1\nreturn\n"):
+            out.append(("attr", "#pragma version 8\n" + tmpl.replace("{A}", body)))
     return out
 
 
@@ -158,6 +203,33 @@ def worker(item: Any, res: runner.Result) -> None:  # pylint: disable=too-many-l
     from tealer.teal.instructions import instructions as I  # pylint: disable=import-outside-toplevel
     from tealer.utils.analyses import is_int_push_ins  # pylint: disable=import-outside-toplevel
 
+    if item[0] == "attr":
+        from mc import sem  # pylint: disable=import-outside-toplevel
+
+        src = item[1]
+        try:
+            case = sem.Case(src)
+        except BaseException as e:  # pylint: disable=broad-except
+            res.violation("C11.crash", item, error=repr(e), program=src)
+            return
+        case.stats_into(res)
+        res.count("attribution_programs")
+        for run in case.accepting:
+            for clause, det in sem.soundness_problems(case, run, case.visited(run), case.ctx):
+                res.violation("C11.comparison-attributed-to-a-field-that-is-not-its-operand", item, clause=clause, program=src, env=repr(run.env), **det)
+        if "gtxn" in src and "OnCompletion" not in src and "ApplicationID" not in src:
+            # (tests of another member's OnCompletion / ApplicationID are the recorded C10 known finding: kept out here)
+            # the contexts kept for other group members (absolute, at-index, relative) must admit them too
+            from mc.checks import c10  # pylint: disable=import-outside-toplevel
+
+            sub = runner.Result()
+            c10.worker(("sound", src, None, None), sub)
+            for v in sub.violations:
+                res.violation("C11.comparison-attributed-to-a-transaction-that-is-not-its-operand", item, program=src, c10_clause=v["kind"], **v["detail"])
+        res.outcome(("attr", len(case.accepting) > 0))
+        if case.accepting:
+            res.mark_nontrivial(src)
+        return
     if item[0] == "tree":
         code = item[1]
         src = "#pragma version 8\n" + "\n".join(code) + "\nassert\n"
@@ -304,11 +376,16 @@ def main(argv: List[str]) -> int:
         "rule": "all straight-line sequences of length <= 2 over one representative per (pops,pushes) class + every stack-shuffling / "
         "multi-push opcode with immediates 0..2 (0..4 thorough), length 3 over the shuffle sub-alphabet (full alphabet / length 4 over "
         "the shuffle core in thorough), the complete per-opcode table at L=1, control opcodes as last instruction, and all &&/|| trees "
-        "of depth <= 3; distinct = sequence text; non-trivial = some instruction pops an operand",
+        "of depth <= 3; attribution programs: one comparison whose operand is NOT a governed field (another member's field, a look-alike "
+        "field, the field +/- a constant) x operand orders x consumers, explored by E1 over all groups, every block passed must admit the "
+        "run; distinct = sequence text; non-trivial = some instruction pops an operand",
         "exhaustive": True,
         "single_source_cells": spec.SINGLE_SOURCE_NOTE,
         "instructions_checked": c.get("instructions_checked", 0),
         "trees": c.get("trees", 0),
+        "attribution_programs": c.get("attribution_programs", 0),
+        "states": c.get("states", 0),
+        "transitions": c.get("transitions", 0),
     }
     return runner.finish(PROP, tier, seed, "exploration", total, t0, cov,
                          ["pops/pushes of mc/spec.py are the trusted base (single source)",
